@@ -83,10 +83,9 @@ def _run(ctx, go, model, ops_path, tag, workers=None):
     rc, err = ctx.run_lines(model, [], res, mod)
     if rc != 0:
         ctx.fatal("model driver failed rc=%d %s" % (rc, err[-800:]))
-    ops = [l.rstrip("\n") for l in open(ops_path) if l.strip() and not l.startswith("#")]
-    resolved = [l.rstrip("\n") for l in open(res)]
-    a = [l.rstrip("\n") for l in open(impl)]
-    b = [l.rstrip("\n") for l in open(mod)]
+    rd = lambda p: [l.rstrip("\n") for l in open(p, errors="replace")]
+    ops = [l for l in rd(ops_path) if l.strip() and not l.startswith("#")]
+    resolved, a, b = rd(res), rd(impl), rd(mod)
     if len(ops) != len(resolved):
         ctx.fatal("driver answered %d ops for %d op lines" % (len(resolved), len(ops)))
     recs, i, j = [], 0, 0
@@ -100,7 +99,7 @@ def _run(ctx, go, model, ops_path, tag, workers=None):
         j += nb
     if i != len(a) or j != len(b):
         ctx.fatal("result streams are longer than the op stream")
-    oracle = [l.rstrip("\n") for l in open(orc)]
+    oracle = rd(orc)
     return recs, oracle
 
 
@@ -156,8 +155,9 @@ def _shell_id():
         return "/bin/sh"
 
 
-def _minimise(ctx, go, model, op):
-    """drop variables of a failing case while the property oracle still fails on it"""
+def _minimise(ctx, go, model, op, what):
+    """drop variables of a failing case while it still fails the same way: what = "oracle:<clause>" (the
+    property oracle still prints FAIL <clause>) or the kind of model difference ("script", "shell", "name")"""
     f = op.split(" ")
     if f[0] != "case" or f[-1] == "_":
         return op
@@ -169,8 +169,10 @@ def _minimise(ctx, go, model, op):
         p = ctx.path("min%d.ops" % n[0])
         open(p, "w").write(" ".join(f[:-1] + [",".join(cand)]) + "\n")
         recs, oracle = _run(ctx, go, model, p, "min%d" % n[0], workers=1)
+        if what.startswith("oracle:"):
+            return any(l.startswith("FAIL " + what[7:] + " ") for l in oracle)
         d, _ = _compare(ctx, recs, count=False)
-        return any(l.startswith("FAIL ") for l in oracle) or bool(d)
+        return any(x["what"] == what for x in d)
 
     if len(items) > 1:
         items = ctx.ddmin(items, fails)
@@ -184,7 +186,7 @@ def run(ctx):
     deep = (not ctx.quick()) or bool(failed)      # a broken proof is followed by the deep search (DESIGN 1.3)
     vlen = 5 if deep else 4
     nlen = 4
-    n_rand = 40000 if deep else 7000
+    n_rand = 40000 if deep else 5000
     batch = 48
     shell = _shell_id()
     ctx.extra["real_shell"] = shell
@@ -241,7 +243,8 @@ def run(ctx):
             ctx.histogram["oracle:" + l[5:]] += 1
         elif l.startswith("KNOWN "):
             ctx.histogram["oracle:known-" + l.split(" ")[1]] += 1
-    ofails = [l for l in oracle if l.startswith("FAIL ")]
+    prio = {"deliver": 0, "name": 1, "build": 2, "tagshape": 3}
+    ofails = sorted((l for l in oracle if l.startswith("FAIL ")), key=lambda l: prio.get(l.split(" ")[1], 9))
     ctx.histogram["oracle:fail"] = len(ofails)
     # --- known finding KF-C18-1: replay of the witnesses (they are the first ops after the self-check)
     wit = recs[1:1 + len(witnesses)]
@@ -269,7 +272,7 @@ def run(ctx):
     for l in ofails[:3]:
         m = re.match(r"FAIL (\S+) (case \S+ \S+ \S+ \S+|name \S+)(.*)", l)
         cls, rop, rest = (m.group(1), m.group(2), m.group(3)) if m else ("?", "", l)
-        aop = _minimise(ctx, go, model, _abstract(rop)) if rop else ""
+        aop = _minimise(ctx, go, model, _abstract(rop), "oracle:" + cls) if rop else ""
         seen_ops.add(_abstract(rop))
         concrete = True
         ctx.violation("impl-vs-spec", "clause '%s' of the property fails on the implementation (real builders, real %s): %s"
@@ -285,7 +288,7 @@ def run(ctx):
         else:
             detail = ("the real %s and the mini-shell differ on a script of the modelled fragment (the theorems are "
                       "relative to the mini-shell: this invalidates the trusted-base assumption, not /repo)" % shell)
-        ctx.violation("impl-vs-model", detail, lines=[_minimise(ctx, go, model, d["op"])],
+        ctx.violation("impl-vs-model", detail, lines=[_minimise(ctx, go, model, d["op"], d["what"])],
                       annotations=["impl: " + d["impl"][:1500], "model: " + d["model"][:1500]], concrete=concrete)
     if failed:
         ctx.obligation_violations(failed, searcher=lambda: concrete)
